@@ -43,6 +43,23 @@ def css_class(o: model.Documentable) -> str:
         class_ += ' private'
     return class_    
 
+def is_documented(o: model.Documentable) -> bool:
+    """
+    Whether a page or an anchor is written for this object: it must be visible and reachable from a
+    root object through L{model.Documentable.contents}.
+
+    A definition that has been superseded by a later definition of the same name stays in
+    L{model.System.allobjects} under a new name (see L{model.System.handleDuplicate}),
+    but it is not part of the contents of it's parent anymore, so it's not rendered.
+    """
+    if not o.isVisible:
+        return False
+    while o.parent is not None:
+        if o.parent.contents.get(o.name) is not o:
+            return False
+        o = o.parent
+    return True
+
 def overriding_subclasses(
         classobj: model.Class,
         name: str,
